@@ -29,18 +29,20 @@ ASSUMPTIONS = [
 ]
 
 STATUS_OBJECT = {
+    "ddl_quoted_case_pair": "METRICS",
     "ddl_create_table": "NEWT", "ddl_create_table_q": "NewQ", "ddl_ctas": "PEOPLE2", "ddl_clone": "CLONE1", "ddl_create_view": "V2",
     "ddl_create_schema": "S3", "ddl_create_schema_q": "s Quoted", "ddl_create_schema_fq": "S9", "ddl_create_database": "DB3",
     "ddl_drop_table": "ORDERS", "ddl_drop_view": "PEOPLE_V", "ddl_drop_schema": "S2", "ddl_create_with_comment": "T_C",
     "ddl_create_table_types": "TYPED",
 }
 SESSION_AFTER = {"ses_use_database": ("DB2", None), "ses_use_schema": ("DB1", "S2"), "ses_use_schema_fq": ("DB2", "S1")}
-VERBATIM = {"Mixed", "Col", "lower", "MyId", "NewQ", "s Quoted", "a"}
+VERBATIM = {"Mixed", "Col", "lower", "MyId", "NewQ", "s Quoted", "a", "Id", "Metrics"}
 # quoted names are reported exactly as written: the description of these templates, and where their object ends up
-EXPECT_DESC = {"q_cte_quoted_def": ["N"], "q_cte_quoted_ref": ["N"], "q_quoted_upper_special": ["ORDER ID", "A.B", "UNIT-PRICE", "COUNT(*)"], "ddl_create_table_q_dotted": ["ORDER ID"], "q_quoted": ["Col", "lower"]}
+EXPECT_DESC = {"q_quoted_case_pair_a": ["ID", "LOWER"], "q_quoted_case_pair_b": ["Id", "lower"], "q_cte_quoted_def": ["N"], "q_cte_quoted_ref": ["N"], "q_quoted_upper_special": ["ORDER ID", "A.B", "UNIT-PRICE", "COUNT(*)"], "ddl_create_table_q_dotted": ["ORDER ID"], "q_quoted": ["Col", "lower"]}
+EXPECT_ROWS = {"ddl_case_variant_recreate": [("NAME", 3)]}
 # templates that only name CTEs and fully qualified objects also run in a session without a current schema
 NOSCHEMA = {"q_cte_quoted_def", "q_cte_quoted_ref", "q_cte"}
-EXPECT_TABLE = {"ddl_create_table_q_dotted": ["DB1", "S1", "S2.DOTTED"], "ddl_create_table_q": ["DB1", "S1", "NewQ"]}
+EXPECT_TABLE = {"ddl_quoted_case_pair": ["DB1", "S1", "METRICS"], "ddl_create_table_q_dotted": ["DB1", "S1", "S2.DOTTED"], "ddl_create_table_q": ["DB1", "S1", "NewQ"]}
 
 
 def gen_cases(tier: str, seed: int):
@@ -196,6 +198,10 @@ def run_case(case: dict, env: core.Env) -> None:
                 env.witness(f"C02/quoted-name-rejected/{z['tag']}", f"{resp[-1]!r}: {rb.get('exc')}")
             elif rb.get("desc") != EXPECT_DESC[z["tag"]]:
                 env.witness(f"C02/quoted-name-not-verbatim/{z['tag']}", f"{resp[-1]!r}: description names {rb.get('desc')} expected {EXPECT_DESC[z['tag']]}")
+        if z["tag"] in EXPECT_ROWS and rb["ok"]:
+            env.count("cmp_absolute_names")
+            if [tuple(x) for x in rb["rows"]] != EXPECT_ROWS[z["tag"]]:
+                env.witness(f"C02/case-variant-names-mixed-up/{z['tag']}", f"{resp[-1]!r}: {rb['rows']} expected {EXPECT_ROWS[z['tag']]}")
         if z["tag"] in EXPECT_TABLE and rb["ok"]:
             env.count("cmp_absolute_names")
             tabs = core.snapshot(fb, data=False)["tables"]
